@@ -54,11 +54,11 @@ def gen_plan(seed, tier="quick", variant=None):
     rng = random.Random(seed * 15485863 + 5)
     thorough = tier == "thorough"
     if variant is None:
-        variant = rng.choice(["faulty", "faulty", "commit", "stop", "retry", "corrupt", "recovery", "clean"])
+        variant = rng.choice(["faulty", "faulty", "commit", "stop", "retry", "corrupt", "recovery", "clean", "restop"])
     nb = rng.randint(1, 3)
     instant = rng.random() < 0.25
     discover = rng.random() < 0.6
-    group = variant == "commit" or rng.random() < 0.5
+    group = variant in ("commit", "restop") or rng.random() < 0.5
     base = rng.choice([0, 0, 7, 1000, 2 ** 31, 2 ** 40])
     log = []
     nseg = rng.randint(0, 10 if thorough else 6)
@@ -107,6 +107,7 @@ def gen_plan(seed, tier="quick", variant=None):
         "shuffle_ties": rng.random() < 0.5,
         "client": {"timeout_ms": timeout_ms, "discover": discover, "retry": [round(rng.choice([0.01, 0.05, 0.2]), 3) for _ in range(3)]},
         "consumer": cons, "base": base, "start": start, "start_rel": start_rel, "connect_timeout": rng.choice([0.5, 2.0]),
+        "late_timers": random.Random(seed * 7919 + 5).choice([0.0, 0.0, 0.0, 0.002, 0.03]),
         "precommit": rng.choice([None, None, rng.randint(0, 10)]) if group else None,
     }
     if big:
@@ -182,13 +183,58 @@ def gen_plan(seed, tier="quick", variant=None):
             elif kind == "meta_error":
                 faults.append({"api": 3, "node": node, "nth": rng.randint(0, 4), "act": "error", "code": rng.choice([5, 3]), "count": rng.choice([1, 3])})
             elif kind == "refuse":
-                faults.append({"kind": "connect", "nth": rng.randint(0, 6), "what": rng.choice(["refused", "blackhole", "dns"]), "count": rng.choice([1, 2, 4])})
+                faults.append({"kind": "connect", "nth": rng.randint(0, 6), "what": rng.choice(["refused", "blackhole", "dns", "sync_fail"]), "count": rng.choice([1, 2, 4])})
             elif kind == "commit_error" and group:
                 faults.append({"api": 8, "node": node, "nth": rng.randint(0, 4), "act": rng.choice(["error", "error", "error_after_apply"]),
                                "code": rng.choice([14, 15, 16, 7, 12, 22, 25, 999]), "count": rng.choice([1, 1, 2, 5])})
             elif kind == "corrupt":
                 faults.append({"kind": "corrupt", "entry": rng.randint(0, 30), "pos": rng.random(), "burst": rng.choice([1, 1, 2, 8, 32]),
-                               "heal": rng.random() < 0.7 or cons["retry_max"] < 0.5})
+                               "heal": rng.random() < 0.7 or cons["retry_max"] < 0.5, "inner": rng.random() < 0.4})
+    if variant == "commit" and rng.random() < 0.25:
+        # the committed position is the very first offset of the log (0 when the log starts there): commit after the
+        # first message only, restart from the committed position - it must resume at the second message
+        cfg["base"] = rng.choice([0, 0, 0, 7])
+        cfg["start"] = "earliest"
+        cfg["precommit"] = None
+        cons.update(every_n=1, every_ms=0, reset=rng.choice([OFFSET_EARLIEST, OFFSET_LATEST, None]))
+        log[:] = [{"kind": "plain", "magic": rng.choice([0, 1]), "n": 1, "gap": 0, "size": 5, "nullkey": False, "nullval": False, "nested": False, "holes": False}]
+        t1 = round(0.2 + rng.random() * 0.3, 6)
+        ops = [{"t": t1, "op": rng.choice(["kill", "stop", "shutdown"])}]
+        ops.append({"t": round(t1 + 0.05, 6), "op": "append", "kind": "plain", "magic": 0, "n": rng.randint(2, 5), "size": 20})
+        ops.append({"t": round(t1 + 0.1 + rng.random() * 0.3, 6), "op": "spawn" if ops[0]["op"] == "kill" else "start", "start": "committed", "start_rel": 0})
+        proc = []
+        faults = [f for f in faults if f.get("api") not in (8, 9) and f.get("act") != "advance_log_start" and f.get("kind") != "corrupt"][:1]
+    if variant == "stop" and rng.random() < 0.3:
+        # stop() while an asynchronous processor call is pending and later blocks of the same fetch are queued behind it
+        cons.update(group=True, every_n=rng.choice([1, 1, 2, 3]), every_ms=rng.choice([0, 0, 1000]), buffer_size=65536, max_buffer_size=None, fetch_size_bytes=1)
+        cfg["precommit"] = None
+        cfg["start"] = "earliest"
+        log[:] = [{"kind": rng.choice(["plain", "wrapper"]), "magic": rng.choice([0, 1]), "n": rng.randint(6, 12), "gap": 0, "size": 5, "nullkey": False, "nullval": False,
+                   "nested": False, "holes": False}]
+        k = rng.randint(1, 3)
+        proc = [{"n": k, "mode": rng.choice(["async", "slow"]), "delay": 0.2}]
+        ops = [{"op": "stop", "on": ["proc", k, "pending"], "delay": rng.choice([0.001, 0.05])}]
+        if rng.random() < 0.7:
+            ops.append({"t": round(1.0 + rng.random(), 6), "op": "start", "start": rng.choice(["committed", "committed", "num"]), "start_rel": 0})
+            if rng.random() < 0.5:
+                ops.append({"op": "commit", "on": ["proc", k + 2, "during"]})
+        faults = faults[:1]
+    if variant == "restop":
+        # stop() while a retry timer (of a failed commit or fetch) is pending, start() again so that nothing touches
+        # that timer's slot, then the final stop(): a stopped consumer can be started - and stopped - again
+        cons.update(every_n=rng.choice([1, 2]), every_ms=0, retry_init=0.1, retry_max=rng.choice([0.5, 30.0]), max_attempts=0, reset=OFFSET_EARLIEST)
+        cfg["lat"] = [0.0005, 0.002]
+        cfg["precommit"] = None
+        cfg["start"] = "earliest"
+        log.append({"kind": "plain", "magic": 0, "n": 6, "gap": 0, "size": 5, "nullkey": False, "nullval": False, "nested": False, "holes": False})
+        k = rng.randint(0, 2)
+        what = rng.choice(["commit", "commit", "fetch"])
+        api, codes = (8, [14, 15, 16, 7]) if what == "commit" else (1, [3, 5, 6, 7])
+        faults = [{"api": api, "node": None, "nth": k, "act": "error", "code": rng.choice(codes), "count": 50}]
+        ops = [o for o in ops if o["op"] == "append"]
+        ops.append({"op": "stop", "on": [what, k], "delay": rng.choice([0.01, 0.03])})
+        ops.append({"t": round(1.0 + rng.random(), 6), "op": "start", "start": rng.choice(["latest", "latest", "num"]), "start_rel": 0})
+        proc = []
     t_faults_end = round(max([horizon * 2.2] + [f["t"] for f in faults if "t" in f] + [o["t"] for o in ops if "t" in o]) + 0.01, 6)
     plan = {"family": FAMILY, "seed": seed, "tier": tier, "cfg": cfg, "log": log, "ops": ops, "proc": proc, "faults": faults,
             "t_faults_end": t_faults_end}
@@ -279,20 +325,44 @@ def _run(w, plan):
         cl.offsets[(GROUP, TOPIC, 0)] = (base + cfg["precommit"], "")
     corrupt_specs = [f for f in plan["faults"] if f.get("kind") == "corrupt"]
     corrupted = []
+    inner_from = {}  # id(entry) -> first offset affected when the damage is inside the wrapper
     for f in corrupt_specs:
         if not part.entries:
             break
         e = part.entries[f["entry"] % len(part.entries)]
+        if f.get("inner"):
+            ws = [x for x in part.entries if x.wrapper and x.raw is None and not x.corrupt]
+            if ws:
+                e = ws[f["entry"] % len(ws)]
         if e.corrupt:
             continue
-        raw = bytearray(e.encode())
+        inner_j = None
+        if f.get("inner") and e.wrapper and e.raw is None and len(e.msgs) >= 1:
+            # the damage happened before the batch was compressed (a faulty producer, a bad disk under the log cleaner):
+            # the wrapper's own checksum and the compressed stream are valid, one *inner* message's checksummed bytes are not
+            mg = e.magic
+            chunks = [kwire.encode_entry(m.offset if mg == 0 else m.offset - e.msgs[0].offset + e.rel0,
+                                         kwire.encode_message(mg, 0, m.key, m.value, m.timestamp if mg == 1 else None)) for m in e.msgs]
+            inner_j = int(f["pos"] * len(chunks)) % len(chunks)
+            raw = bytearray(chunks[inner_j])
+        else:
+            raw = bytearray(e.encode())
         lo = 12
-        pos = lo * 8 + int(f["pos"] * ((len(raw) - lo) * 8 - f["burst"]))
+        frac = (f["pos"] * 7919) % 1.0 if inner_j is not None else f["pos"]
+        pos = lo * 8 + int(frac * ((len(raw) - lo) * 8 - f["burst"]))
         pos = max(lo * 8, min(pos, len(raw) * 8 - f["burst"]))
         for b in range(f["burst"]):
             bit = pos + b
             if b == 0 or b == f["burst"] - 1 or sim.rng("corrupt").random() < 0.5:
                 raw[bit // 8] ^= 1 << (7 - bit % 8)
+        if inner_j is not None:
+            if bytes(raw) == chunks[inner_j]:
+                continue
+            chunks[inner_j] = bytes(raw)
+            ms = [Msg(m.offset, m.key, m.value, mg, m.timestamp if mg == 1 else None) for m in e.msgs]
+            raw = bytearray(kwire.encode_wrapper(ms, mg, inner=b"".join(chunks)))
+            inner_from[id(e)] = e.msgs[inner_j].offset
+            net.fault("corrupt_inner_message")
         if bytes(raw) == e.encode():
             continue
         e.raw_clean = e.raw
@@ -313,7 +383,7 @@ def _run(w, plan):
         net.connect_rules.append(connect_rule)
 
     incs = []  # incarnations
-    state = {"inc": None, "healed": False, "t_heal": None}
+    state = {"inc": None, "healed": False, "t_heal": None, "inner_from": inner_from}
     proc_spec = {}
     for p in plan["proc"]:
         proc_spec.setdefault(p["n"], p)
@@ -529,6 +599,8 @@ def _run(w, plan):
                 sim.after(0.0, do_op, o)
 
         sim.after(spec["delay"] if mode != "slow" else max(spec["delay"], 0.3), fire)
+        for o in triggers["proc"].pop((k, "pending"), ()):
+            sim.after(o.get("delay", 0.001), do_op, o)  # while the result of this invocation is pending
         res.probe("processor_async")
         return d
 
@@ -820,9 +892,11 @@ def _oracles(w, plan, res, incs, part, state, corrupted, live_tail):
             for i, m in enumerate(e.msgs):
                 wrapper_v1[(m.key, m.value)] = (m.offset, i)
     corrupt_offsets = set()
+    inner_from = state.get("inner_from", {})
     for e in corrupted:
         for m in e.msgs:
-            corrupt_offsets.add(m.offset)
+            if m.offset >= inner_from.get(id(e), m.offset):
+                corrupt_offsets.add(m.offset)  # (inner messages ahead of a damaged inner message decode fine and may be delivered)
     had_corruption = bool(corrupted)
     oor_events = [(e["resp_t"], e["logseq"], e["pid"]) for e in cl.reqlog
                   if e["key"] == kwire.FETCH and e.get("served") and any(s_["error"] == E_OFFSET_OUT_OF_RANGE for s_ in e["served"])
@@ -857,7 +931,10 @@ def _oracles(w, plan, res, incs, part, state, corrupted, live_tail):
                         res.violate("C02", "C02:delivered-record-differs-from-log", "offset %d delivered as key=%r value=%r, log has %r" % (
                             off, key, (val or b"")[:16], m))
                     break
-                if off in corrupt_offsets and any(e.corrupt or not e.heal for e in corrupted if any(mm.offset == off for mm in e.msgs)):
+                if off in corrupt_offsets and any(e.corrupt or not e.heal or state.get("t_heal") is None or rec["t"] < state["t_heal"]
+                                                  for e in corrupted if any(mm.offset == off for mm in e.msgs)):
+                    # (delivered while the stored bytes were still damaged - e.g. only the checksum field itself was hit, so the
+                    # content looks right: it still was not verified)
                     res.violate("C12", "C12:message-from-corrupted-entry-delivered", "offset %d is inside an entry whose checksummed bytes were altered" % off)
                 if prev is not None and (off <= prev[0] or any(prev[0] < x < off for x in offsets_sorted)):
                     # the offset-reset policy firing is a permitted discontinuity. The out-of-range answer may pre-date
@@ -1127,8 +1204,10 @@ def _check_c14(w, plan, res, inc, cc, fetches_by_pid):
     fire_times = sorted(x[1] + x[2] for x in tl)
     answer_times = sorted(c2["t_done"] for c2 in calls if c2["done"] and c2["ok"] and c2["name"] != "send_fetch_request")
 
+    late = cfg.get("late_timers") or 0.0  # a timer may fire up to this much after its due time
+
     def near(lst, t, eps=1e-7):
-        i = bisect.bisect_left(lst, t - eps)
+        i = bisect.bisect_left(lst, t - eps - late)
         return i < len(lst) and lst[i] <= t + eps
 
     for c in calls:
